@@ -101,6 +101,10 @@ def cases(rng, tier):
         if it >= n_main:
             cls, f = "ragged", "col_range"
         p = {"inp": inp, "cls": cls, "f": f, "dtype": rng.choice(["int64", "int64", "int32", "float64", "uint8", "uint64", "int8", "float32"])}
+        if inp["kind"] != "intervals" and rng.random() < 0.2:
+            p["vmap"] = "big"         # cell classes 1, 2, 3 stand for max, max - 1, 1 of the dtype: products value x run length leave a narrow dtype
+        if inp["kind"] == "matrix" and rng.random() < 0.3:
+            p["order"] = rng.choice(["F", "T"])     # the input matrix is Fortran-ordered / a transposed view
         if f == "row_int":
             p["i"] = rng.randint(-r, r - 1)
         elif f == "rows":
@@ -153,6 +157,15 @@ def distribution(ps):
             "col_range_negative_step": sum(1 for p in ps if p["f"] == "col_range" and p.get("s") is not None and p["s"] < 0)}
 
 
+def _vmapped(p, rows):
+    if p.get("vmap") != "big":
+        return rows
+    dt = np.dtype(p["dtype"])
+    big = int(np.iinfo(dt).max) if dt.kind in "iu" else (1e308 if dt == np.float64 else 3e38)
+    m = {0: 0, 1: big, 2: big - 1 if dt.kind in "iu" else big / 2, 3: 1}
+    return [[m[v] for v in r] for r in rows]
+
+
 def _build(p):
     from npstructures import RaggedArray, RunLength2dArray, RunLengthRaggedArray
     inp = p["inp"]; dt = p["dtype"]
@@ -163,9 +176,13 @@ def _build(p):
             dense = np.array(_dense(inp))
             return RunLengthRaggedArray.from_array(dense)
         return rl
-    rows = inp["rows"]
+    rows = _vmapped(p, inp["rows"])
     if inp["kind"] == "matrix":
         m = np.array(rows, dtype=dt)
+        if p.get("order") == "F":
+            m = np.asfortranarray(m)
+        elif p.get("order") == "T":
+            m = np.ascontiguousarray(m.T).T
         return (RunLength2dArray if p["cls"] == "2d" else RunLengthRaggedArray).from_array(m)
     ra = RaggedArray(np.array([v for r in rows for v in r], dtype=dt), [len(r) for r in rows])
     return RunLengthRaggedArray.from_ragged_array(ra)
@@ -266,7 +283,7 @@ def run_impl(p):
 
 def oracle(p):
     f = p["f"]
-    dense = _dense(p["inp"])
+    dense = _vmapped(p, _dense(p["inp"])) if p["inp"]["kind"] != "intervals" else _dense(p["inp"])
     dt = np.dtype(p["dtype"]) if p["inp"]["kind"] != "intervals" else np.dtype("int64")
     rows = [np.array(r, dtype=dt) for r in dense]
     r = len(rows); w = max(len(x) for x in rows)
@@ -331,7 +348,7 @@ LEAN_F = {"to_array", "row_int", "rows", "element", "col_int", "sum", "max", "an
 
 def lean_request(p):
     f = p["f"]
-    if f not in LEAN_F or p["dtype"] in ("float64", "float32", "uint8", "uint64", "int8"):
+    if f not in LEAN_F or p["dtype"] in ("float64", "float32", "uint8", "uint64", "int8") or p.get("vmap"):
         return None
     if f in ("scalar", "column") and p["uf"] != "subtract":
         return None
@@ -398,8 +415,57 @@ def same(a, b):
     return _close(a["v"], b["v"], 0.0)
 
 
+def _close32(a, b):
+    """float32 data: the library accumulates in float64 (relative error 1e-6), and numpy's float32 result may have overflowed to
+    +-inf where the float64 accumulation is finite but beyond the float32 range"""
+    if isinstance(a, list) and isinstance(b, list):
+        return len(a) == len(b) and all(_close32(x, y) for x, y in zip(a, b))
+    if isinstance(a, (int, float)) and isinstance(b, (int, float)):
+        if isinstance(b, float) and b in (float("inf"), float("-inf")) and a == a and abs(a) > 3.4e38 and (a > 0) == (b > 0):
+            return True
+        return _close(a, b, 1e-6)
+    return a == b
+
+
 def matches_finding(f, p, impl, expect):
     if f["id"] == "F16a":
-        return p["f"] in ("sum", "mean", "np.sum", "np.mean", "col_sum", "mean0") and p["dtype"] == "float64" and \
-            not engine.is_refuse(impl) and _close(impl["v"], expect["v"], 1e-12)
+        if p["f"] not in ("sum", "mean", "np.sum", "np.mean", "col_sum", "mean0") or engine.is_refuse(impl):
+            return False
+        if p["dtype"] == "float64":
+            return _close(impl["v"], expect["v"], 1e-12)
+        return p["dtype"] == "float32" and _close32(impl["v"], expect["v"])
+    if f["id"] == "F17d":
+        # float column sums / column means: differences + one cumulative sum over all rows' boundaries
+        if p["f"] not in ("col_sum", "mean0") or p["dtype"] not in ("float64", "float32") or engine.is_refuse(impl):
+            return False
+        dense = _vmapped(p, _dense(p["inp"]))
+        tot = sum(abs(float(v)) for r in dense for v in r)
+        eps = 2.0 ** -52 if p["dtype"] == "float64" else 2.0 ** -23
+        iv, ev = impl["v"], expect["v"]
+        if not (isinstance(iv, list) and isinstance(ev, list) and len(iv) == len(ev)):
+            return False
+        for x, y in zip(iv, ev):
+            if not (isinstance(x, (int, float)) and isinstance(y, (int, float))):
+                return False
+            if x != x or y != y or abs(x) == float("inf") or abs(y) == float("inf"):
+                continue          # overflowing partial sums: both sides are not finite somewhere
+            if abs(x - y) > 16 * eps * tot:
+                return False
+        return True
+    if f["id"] == "F17c":
+        # column means of 64-bit integers whose exact column sum leaves the 64-bit range
+        if p["f"] != "mean0" or p["dtype"] not in ("int64", "uint64") or p.get("vmap") != "big" or engine.is_refuse(impl):
+            return False
+        dense = _vmapped(p, _dense(p["inp"]))
+        w = max(len(r) for r in dense)
+        lo, hi = (-2 ** 63, 2 ** 63 - 1) if p["dtype"] == "int64" else (0, 2 ** 64 - 1)
+        iv, ev = impl["v"], expect["v"]
+        if not (isinstance(iv, list) and isinstance(ev, list) and len(iv) == len(ev) == w):
+            return False
+        for j in range(w):
+            col = sum(r[j] for r in dense if len(r) > j)
+            if lo <= col <= hi:
+                if not _close(iv[j], ev[j], 1e-12):
+                    return False
+        return True
     return False
